@@ -146,7 +146,7 @@ package abi
 //@   assigns nothing
 //@   sweep[C08,C18]
 //@   ensures[C18] len(data) == 22 <==> err == nil
-//@   ensures[C18] err == nil ==> result0 != nil && fresh(result0) && result0.Addr == le32(data, 0) && result0.Size == le16(data, 4) && len(result0.Guid) == 16
+//@   ensures[C18,C04] err == nil ==> result0 != nil && fresh(result0) && result0.Addr == le32(data, 0) && result0.Size == le16(data, 4) && len(result0.Guid) == 16
 //@   ensures[C18] err == nil ==> be32(result0.Guid, 0) == le32(data, 6) && be16(result0.Guid, 4) == le16(data, 10) && be16(result0.Guid, 6) == le16(data, 12)
 //@   ensures[C18] err == nil ==> forall(i, 0 <= i && i < 8 ==> bytesAt(result0.Guid, 8+i) == bytesAt(data, 14+i))
 
